@@ -83,6 +83,7 @@ def run(ctx, rep):
     rep.rule('R-C04-6', 'blockcmp compares the zero padding beyond pos_size', 1)
 
     memhash_pairing(P, rep, 'R-C04-1p')
+    block_size_rule(P, rep, 'R-C04-7')
     # coverage of the percentage plans: the derived limits select exactly the quota (a stripe the plan covers is never skipped)
     from .C15 import quota_rule
     cands = [f_ for f_ in P.variants('block_is_enabled') if (f_.file or '').endswith('scrub.c')]
@@ -359,3 +360,44 @@ def memhash_pairing(P, rep, rid):
             n += 1
             rep.analysed(f)
     return n
+
+
+def block_size_rule(P, rep, rid):
+    """the number of bytes hashed / compared / written for a block: file_alloc and file_block_size are integer-only code;
+    interpret them over every size 0..3*bs+1 (bs = 4): blockmax = ceil(size/bs) and the block sizes are bs,...,bs,last with
+    last = size - (blockmax-1)*bs, so they sum to the file size (no byte of the last partial block is outside a block)"""
+    from .. import region as RG
+    rep.rule(rid, 'file_alloc / file_block_size: blockmax = ceil(size / block_size) and the block sizes partition the file (every size 0..13 with block_size 4, and block_size 1)', 14)
+    fa = P.fn('file_alloc'); fb = P.fn('file_block_size')
+    rep.analysed(fa, fb)
+    lay = P.distructs.get('snapraid_file')
+    if not lay:
+        raise AnalysisBroken('struct snapraid_file not found')
+    off = {m['name']: m['off'] for m in lay['members']}
+    for bs in (4, 1):
+        for size in range(0, 3 * bs + 2):
+            n = [0]
+            def ext(ins, args):
+                if ins.callee in ('malloc_nofail', 'strdup_nofail', 'calloc_nofail'):
+                    n[0] += 1
+                    return (RG.P_(('heap', n[0]), 0),)
+                if ins.callee in ('memset', 'memcpy'):
+                    return (args[0],)
+                return None
+            R = RG.Region(P, extern=ext)
+            R.mem[(('glob', 'BLOCK_HASH_SIZE'), 0)] = 16
+            try:
+                fp = R.run(fa, 0, [bs, RG.P_(('str', 'sub'), 0), size, 0, 0, 0, 0])
+            except RG.Unsupported as e:
+                raise AnalysisBroken('cannot interpret file_alloc: %s' % e)
+            bm = R.mem.get((fp.reg, off['blockmax']))
+            want_bm = (size + bs - 1) // bs
+            sizes = []
+            ok = bm == want_bm
+            if ok:
+                for pos in range(bm):
+                    sizes.append(R.run(fb, 0, [fp, pos, bs], frame=1000 + pos))
+                want = [bs] * (bm - 1) + ([size - (bm - 1) * bs] if bm else [])
+                ok = sizes == want
+            rep.check(ok, rid, 'size %d, block size %d' % (size, bs), fb.file, 'blockmax %s, block sizes %s' % (bm, sizes) if ok else 'blockmax %s (expected %d), block sizes %s: they do not partition the %d bytes of the file' % (bm, want_bm, sizes, size),
+                      function='file_block_size', construct='block size partition')
